@@ -60,7 +60,7 @@ var props = map[string]Prop{
 	},
 	"C16": {
 		ID: "C16", Level: "exploration",
-		Rule: "rapid generates modules of 4-12 packages; each package directory holds a random tree (depth <= 4; names with leading . and _, spaces, unicode, names module.CheckFilePath rejects, .git, empty directories, symlinks, nested go.mod) and one //go:embed line built from a pattern list (existing files and directories, globs derived from them, all: prefix, quoted and back-quoted spellings, duplicates, invalid and non-matching patterns, odd directive prefixes, trailing junk); one `go list -e -json ./...` per module is the reference for EmbedPatterns, EmbedFiles and acceptance. Non-trivial: package with a hidden/underscore/invalid name, a symlink, a nested module, a glob, all:, quoting, a special pattern or an odd directive. Distinct by hash of (tree, directive line).",
+		Rule: "rapid generates modules of 4-12 packages; each package directory holds a random tree (depth <= 4; names with leading . and _, spaces, unicode, names module.CheckFilePath rejects, .git, empty directories, symlinks, nested go.mod) and one //go:embed line built from a pattern list (existing files and directories, globs derived from them, all: prefix, quoted and back-quoted spellings, duplicates, invalid and non-matching patterns, odd directive prefixes, trailing junk); one `go list -e -json ./...` per module is the reference for EmbedPatterns, EmbedFiles and acceptance. Non-trivial: package with a hidden/underscore/invalid name, a symlink, a nested module, a glob, all:, quoting, a special pattern or an odd directive. Distinct by hash of (tree, directive line). Second job: rapid-generated file sets (names chosen so that directories have siblings sorting before '/') are passed through BuildFSEntries and the resulting table is installed into a real embed.FS value, whose own ReadFile/ReadDir/WalkDir must find every file and directory; non-trivial there = the set contains a directory.",
 		Assumptions: []string{
 			"`go list -e -json` of the go1.24 toolchain is the reference for which files are embedded and which packages are rejected",
 			"errors are compared as accept/reject only, not by message",
@@ -68,6 +68,7 @@ var props = map[string]Prop{
 		},
 		Jobs: []Job{
 			inj("golist", "internal/goembed", "zz_verif_c16_test.go", "", "TestVerifC16GoList", 60, 2500, 6, 16),
+			inj("fstable", "internal/goembed", "zz_verif_c16_fs_test.go", "", "TestVerifC16FSTable", 20000, 1000000, 1, 4),
 		},
 	},
 	"C07": {
